@@ -17,7 +17,7 @@ CHECKS = {
         text=("Proof by enumeration of structural obligations over the type-checked program: unsafe confinement, byte-exact "
               "primitive kernels, guard kernels, domination of every unchecked read by availability evidence of at least the "
               "callee's size, representation invariants (private fields, audited constructors, cursor writes), SIZE == bytes "
-              "consumed for every instantiated type, index guards and checked length products. All obligations must be "
+              "consumed for every instantiated type, index guards, checked length products and the two-nibble test of read_until_nibble. All obligations must be "
               "discharged; none may be audited away. This implies in-bounds, exact reads for every buffer and every operation "
               "sequence, which no finite set of tests reaches."),
         design_ref="DESIGN.md section 6, C14",
@@ -29,7 +29,10 @@ CHECKS["C11"] = dict(
     technique="table reading: rustc const-evaluated static initialisers and MIR match tables compared with a specification-derived oracle",
     text=("Static, exhaustive comparison of the WOFF2 decoder's constant tables with the W3C specification: all 128 triplet rows, "
           "63 known tags, 255UInt16 codes/offsets and UIntBase128 constants, read from the compiled program without running it. "
-          "The two flag predicates of the transformed hmtx table test the specification's bits. "
+          "The two flag predicates of the transformed hmtx table test the specification's bits; UIntBase128 rejects a leading 0x80; the "
+          "glyf reconstruction takes xMin from the decoded bounding box stream and writes loca in the format head announces; composite "
+          "glyphs look for WE_HAVE_INSTRUCTIONS in the same place as the writer. One known finding is reported on every run "
+          "(KNOWN-FINDING line, exit 0): the rebuilt leftSideBearing[] array covers all glyphs instead of those past numberOfHMetrics. "
           "Decides a necessary condition of the property (a wrong row mis-decodes some conforming file); stream bookkeeping and "
           "reconstruction arithmetic are not decided."),
     design_ref="DESIGN.md section 6, C11",
@@ -42,7 +45,7 @@ CHECKS["C18"] = dict(
           "(mutual inverses, spec mnemonics), dispatch exhaustiveness incl. the escape switch and the try_into().unwrap() domain, "
           "subroutine bias step function at all breakpoints, nesting/stack limits, bounded interpreter recursion on every cycle, and "
           "visitor implementations without catch-all arms; blend takes its ItemVariationData index from the charstring's vsindex, else the "
-          "Private DICT's. Path arithmetic is not decided; operand-stack depth only through the audited indexing/arithmetic sites of C01."),
+          "Private DICT's, and pairs region scalars and deltas position by position (no skip/step adaptor on either side of the zip). Path arithmetic is not decided; operand-stack depth only through the audited indexing/arithmetic sites of C01."),
     design_ref="DESIGN.md section 6, C18",
 )
 
@@ -52,7 +55,9 @@ CHECKS["C06"] = dict(
     text=("Static, exhaustive decision of 'the Mac Roman conversions are mutual inverses' (all 256 codes and every scalar value distinguished by "
           "either table); of the sub-table preference list (every probed (platform, encoding) pair means, by the specification, the Encoding it "
           "is returned as; full-repertoire before BMP; Unicode before Symbol/Mac Roman/Big5); and of the agreement between single lookups and "
-          "enumeration for format 4 (one shared kernel fed with the raw segment values) with every format listed in both dispatchers. Format "
+          "enumeration for format 4 (one shared kernel fed with the raw segment values; the enumeration neither truncates or filters its segment iterator nor leaves "
+          "its loops early) with every format listed in both dispatchers; the symbol PUA fallback tests U+F000..=U+F0FF inclusive; no unchecked "
+          "lossy cast of a code or glyph id in the lookup code. Format "
           "0/2/6/10/12 lookup arithmetic and Big5 (encoding_rs) are not decided."),
     design_ref="DESIGN.md section 6, C06 and section 11",
 )
@@ -63,7 +68,8 @@ CHECKS["C12"] = dict(
           "checked, dynamic tags must pass a filter that rejects is_var_table tags; the predicate itself is read and must match all "
           "seven variation tags), the CFF2 variation store is cleared before writing, the result comes from the single sfnt producer, "
           "the bounding-box recursion is depth-bounded, and tables that declare a record size (MVAR, fvar) are read with that size as the "
-          "array stride. All numeric clauses of the variation model are not decided."),
+          "array stride; per-iteration scratch buffers are reset inside their loop; delta and point iterators are zipped without skip/step "
+          "adaptors; the X and Y deltas of a gvar tuple are read as one packed stream of 2n deltas. All numeric clauses of the variation model are not decided."),
     design_ref="DESIGN.md section 6, C12",
 )
 
@@ -84,7 +90,8 @@ CHECKS["C10"] = dict(
     technique="MIR provenance rule on the member index (copies only, total accessors only), closure-family comparison discipline of the tag finders, sibling agreement of FontTableProvider impls, kernel reading of the WOFF entry reader, panic ledger rule on the container layer",
     text=("Static decision of the selection discipline of the container layer: a member index reaches a total accessor unmodified, tables are "
           "selected by tag equality inside Iterator::find (order independent), has_table/table_data agree on their selector, the WOFF reader "
-          "inflates exactly under comp_length != orig_length and reads (offset, comp_length), and no explicit panic is left in the layer — so an "
+          "inflates exactly under comp_length != orig_length and reads (offset, comp_length) with no length-limiting adaptor on the inflater, "
+          "member functions receive the caller's own index, every decision on the sfnt version lists 0x00010000, 'true' and 'OTTO', and no explicit panic is left in the layer — so an "
           "absent table or out-of-range member yields None/Err. Byte-for-byte equality of table data is not decided."),
     design_ref="DESIGN.md section 6, C10",
 )
@@ -92,7 +99,8 @@ CHECKS["C13"] = dict(
     category="other",
     technique="MIR dominance rule for the length test, reaching-definitions must-pass-through of clamp(-1,1) on the pushed value, provenance of clamp bounds, guarded-divisor rule, ADT field visibility and constructor audit",
     text=("Static decision of the structural clauses of C13: wrong-length tuples are rejected before anything is produced, every value pushed to "
-          "the result is the direct result of clamp(-1, 1), the font-supplied clamp bounds are ordered by construction, fixed-point division guards a "
+          "the result is the direct result of clamp(-1, 1) on the 16.16 value, the default coordinate maps to the constant 0 and divisions happen only "
+          "under a strict comparison with the default, the avar segment map compares only with table data, the font-supplied clamp bounds are ordered by construction, fixed-point division guards a "
           "zero divisor, and tuples cannot be forged. The numeric clauses (exact -1/0/+1, accuracy, monotonicity) are not decided."),
     design_ref="DESIGN.md section 6, C13",
 )
@@ -102,8 +110,9 @@ CHECKS["C16"] = dict(
     text=("Static decision of the clause 'to a bounded nesting depth' (monotone depth counter, strict step and dominating bound test on every "
           "cycle through visit_outline/visit_composite_glyph_outline), of the panic/indexing/arithmetic discipline of the glyf outline code, and of "
           "two necessary table conditions of flag decoding: the six simple-glyph and twelve composite-glyph flag constants equal the specification "
-          "and each predicate tests the constant it is named after. Contour walking, implied points, coordinate decoding arithmetic, component "
-          "offset scaling and transforms are not decided."),
+          "and each predicate tests the constant it is named after; and of one clause of composition: the accumulated transform reaches the "
+          "components of a nested composite. Contour walking, implied points, coordinate decoding arithmetic and component offset scaling are "
+          "not decided."),
     design_ref="DESIGN.md section 6 (C16) and 11.2",
 )
 CHECKS["C17"] = dict(
@@ -112,7 +121,9 @@ CHECKS["C17"] = dict(
     text=("Static decision of C17 as an effect discipline: every operation that can mutate the text buffer, transitively from preprocess_text, is a "
           "stable permutation primitive (for Default/Syriac/Arabic confined to a run delimited by NotReordered characters, on a &mut [char]) or "
           "one of the documented decompositions of its function fed by its named table or a constant; the dispatch lists every ScriptType; the "
-          "modifier-combining-mark predicate is true exactly for the 14 marks of UTR #53. That the comparator realises AMTRA and that the "
+          "modifier-combining-mark predicate is true exactly for the 14 marks of UTR #53; the Indic preprocessing steps run in their documented "
+          "order; the NotReordered fast path ends below U+0300; the sort of a mark run is unconditional; the Bengali YA+NUKTA recomposition tests "
+          "its two constants. That the comparator realises AMTRA and that the "
           "decomposition tables are the documented ones is not decided."),
     design_ref="DESIGN.md section 6, C17",
 )
@@ -123,7 +134,9 @@ CHECKS["C04"] = dict(
     text=("Static decision of the structural clauses of C04: lookups of the enabled features are accumulated in a BTreeMap keyed by lookup index "
           "and consumed in key order (lookup-list order, each once), rvrn first; GSUB lookup type numbers, lookup flag masks and the IGNORE_MARKS "
           "precedence equal the specification; the reader builds the subtable type of each lookup kind; every dispatcher lists all seven kinds; "
-          "positions inside a matched sequence come from the lookup-flag-aware iterator; nested lookups are depth bounded. Glyph matching, "
+          "positions inside a matched sequence come from the lookup-flag-aware iterator; nested lookups are depth bounded and receive the nested lookup's own match type; the three mark-skipping "
+          "modes of match_glyph only ever reject marks; every FeatureMask flag has exactly one row, with its namesake tag, in the evaluated "
+          "FEATURE_MASKS table. Glyph matching, "
           "context rule selection, iteration arithmetic and ligature bookkeeping are not decided."),
     design_ref="DESIGN.md section 6, C04",
 )
@@ -145,7 +158,8 @@ CHECKS["C03"] = dict(
     category="other",
     technique="memo-key completeness by intra-procedural provenance with closure-capture resolution (parameters used under the miss branch vs parameters in the key), narrowing-cast rule on keys, receiver-shape rule for the base-keyed ReadCache, must-dominate rule on LazyLoad slot stores, field-write audit of loader dependencies, forbidden-callee and RandomState-iteration audit over all call sites, statics table",
     text=("Static decision of history-independence as memo-key completeness for every cache of the crate (entry memos, the base-keyed ReadCache, the "
-          "lookup caches, the dotted-circle GlyphCache, the LazyLoad slots of Font) and of run-to-run determinism as the absence of clock/env/"
+          "lookup caches, the dotted-circle GlyphCache, the LazyLoad slots of Font; a loader dependency is reset with its slot on every path; the remembered lookup-cache index is the "
+          "length read before the push; no ReadScope is re-based from another scope's data()) and of run-to-run determinism as the absence of clock/env/"
           "thread/random callees, of unaudited iteration over RandomState-hashed containers and of mutable statics. Equality of values across "
           "histories as such, and determinism of third-party decompressors, are not decided."),
     design_ref="DESIGN.md section 6, C03",
@@ -157,7 +171,8 @@ CHECKS["C09"] = dict(
     text=("Static decision of the writer pipeline behind C09: one producer of sfnt headers and directories; offset table, directory, padding, header "
           "checksum, checkSumAdjustment = 0xB1B0AFBA - (headers + tables), bodies — in that order on every path; each table padded before its "
           "checksum, records carrying the unpadded length and the running padded offset through checked conversions; tables kept and emitted "
-          "in tag order; glyf, loca and head written with one loca format; the WOFF2 provider serialises head after its last modification. "
+          "in tag order; glyf, loca and head written with one loca format; the WOFF2 provider serialises head after its last modification; hmtx writers and hhea.numberOfHMetrics agree (the instancer sets "
+          "it on every path); composite glyph reader and writer agree on where WE_HAVE_INSTRUCTIONS is looked for. "
           "Mutual consistency of table contents and the search-field values are not decided."),
     design_ref="DESIGN.md section 6, C09",
 )
@@ -168,9 +183,9 @@ CHECKS["C07"] = dict(
     text=("Static decision of the id-space discipline of the subsetter: every access to a source table (hmtx, glyf records, CFF/CFF2 charstrings, "
           "charset, FDSelect) is indexed by an operand whose provenance is an old id, every id stored into the output or passed to old_id is a "
           "new id, each SubsetGlyphs implementation answers old_id/new_id from the right map, the local-subr usage map handed to "
-          "rebuild_local_subr_indices is keyed in the id space of the FDSelect it is looked up in, and composite glyphs are recognised by the "
-          "sign of numberOfContours. Equality of outlines and metrics, the numberOfHMetrics boundary arithmetic and CFF subroutine renumbering "
-          "are not decided."),
+          "rebuild_local_subr_indices is keyed in the id space of the FDSelect it is looked up in, composite glyphs are recognised by the "
+          "sign of numberOfContours, rebuilt subr INDEXes keep the source entry count (bias preserved), the FDSelect format 3 sentinel is the "
+          "glyph count, and the hmtx writer's long-metric count is the one stored in hhea. Equality of outlines and metrics and CFF subroutine renumbering are not decided."),
     design_ref="DESIGN.md section 6, C07",
 )
 
@@ -191,7 +206,8 @@ CHECKS["C15"] = dict(
           "CFF headers/ranges/charsets/encodings/FDSelect, variation store records, glyf bounding box and glyph headers) the item sequences "
           "agree in width, field and constants; no unchecked lossy cast remains in writer code; every placeholder is filled on every Ok path; "
           "position-derived offsets are relative; the CFF INDEX offSize is the specification's decision table applied to the largest "
-          "offset actually written. Equality of values, and data-dependent layouts beyond the compared prefix, are not decided."),
+          "offset actually written; a writer does not emit a computing accessor where the reader stored the raw item; the CFF integer "
+          "operand ranges of the writers equal the specification; composite glyph reader and writer agree on the instruction flag. Equality of values, and data-dependent layouts beyond the compared prefix, are not decided."),
     design_ref="DESIGN.md section 6, C15",
 )
 
@@ -201,7 +217,9 @@ CHECKS["C05"] = dict(
     text=("Every numeric clause of C05 is a value property and is not decided. Decided are necessary structural conditions: GPOS lookup type "
           "numbers 1-9 select the specification's lookup kinds; each kind is parsed by its own subtable reader; ValueFormat predicates test the "
           "specification's bits; a ValueRecord is consumed in the specification's field order with each value landing in the Adjust field of the "
-          "same meaning; both dispatchers list every PosLookup kind; nested lookups are applied at the position found by the flag-aware iterator."),
+          "same meaning; both dispatchers list every PosLookup kind; nested lookups are applied at the position found by the flag-aware iterator; the base of a nested MarkToBase/MarkToLigature is "
+          "found ignoring marks; cursive adjustment precedes mark positioning; the lookup indices of a feature are sorted before they are "
+          "applied; mark-skipping modes only reject marks."),
     design_ref="DESIGN.md section 11 (C05 was listed as not applicable in section 7; the table clauses were added later)",
 )
 
